@@ -78,8 +78,8 @@ def build(entries):
 
 def execute(tr):
     import sys
-    if "/repo" not in sys.path:
-        sys.path.insert(0, "/repo")
+    if __import__("harness").REPO not in sys.path:
+        sys.path.insert(0, __import__("harness").REPO)
     from asyncfix import FIXMessage, FMsg, FTag
     m = FIXMessage("D")
 
